@@ -102,26 +102,31 @@ class GQ:
         return [b for b in B if self.E[b][0] in r and b not in set(A)]
 
     def never_after(self, A, B, blocked=()):
-        """No B edge is reachable after an A edge.  Returns (a, b) pairs."""
+        """No B edge is reachable after an A edge.  Returns (a, b) pairs (one b per offending a)."""
+        Bs = list(B)
+        if not Bs or not A:
+            return []
+        # one backward search from the sources of B
+        can = self.reach_bwd([self.E[b][0] for b in Bs], blocked=blocked)
+        bad = [a for a in A if self.E[a][1] in can]
         out = []
-        Bs = set(B)
-        for a in A:
+        for a in bad[:3]:
             r = self.reach_fwd([self.E[a][1]], blocked=blocked)
             hit = [b for b in Bs if self.E[b][0] in r]
-            if hit:
-                out.append((a, hit[0]))
+            out.append((a, hit[0] if hit else Bs[0]))
+        for a in bad[3:]:
+            out.append((a, Bs[0]))
         return out
 
     def must_follow(self, A, B, until_nodes):
         """After every A edge, every path to `until_nodes` crosses a B edge.
-        Returns A edges from which an until node is reachable avoiding B."""
-        out = []
-        U = set(until_nodes)
-        for a in A:
-            r = self.reach_fwd([self.E[a][1]], blocked=B)
-            if r & U:
-                out.append(a)
-        return out
+        Returns the A edges from which an until node is reachable avoiding B."""
+        U = list(until_nodes)
+        if not U or not A:
+            return []
+        can = self.reach_bwd(U, blocked=B)
+        Bs = set(B)
+        return [a for a in A if self.E[a][1] in can and a not in Bs]
 
     def effects_after(self, A, blocked=()):
         """Set of edge indices reachable after any A edge."""
